@@ -1,7 +1,7 @@
 /-
 Oracle/C18.lean — line-protocol oracle for property C18 (core only; compiled to `oracle_c18`).
 
-  auth <path> <sasl> <env items> <expect ok|any> => <journal>;<result>;<closed>
+  auth <path> <sasl> <env items> <expect ok|err|any> => <journal>;<result>;<closed>
       model  = Model/Auth.lean replaying the recorded environment events (trace acceptance: `reject@i`
                names the first event the model cannot take), printed in the implementation's format
       holds  = Spec.Sasl.orderHolds on the IMPLEMENTATION's journal  ∧  (a failure event in the script ⇒
@@ -37,6 +37,7 @@ def parseEnv (s : String) : Option Env :=
     let e ← err.toInt?; let b ← ofHex d
     pure (.reply e b (f == "1"))
   | ["EOF"] => some .eof
+  | ["IDLE"] => some .eof
   | ["IOERR"] => some .ioerr
   | ["MS", "fail"] => some (.mechStart none)
   | ["MS", t] => do let b ← ofHex t; pure (.mechStart (some b))
@@ -109,6 +110,10 @@ def step (line : String) : String :=
             | none => "reject"
         let holds := match impl.splitOn ";" with
           | [journal, result, closed] =>
+            -- `idle`: the fake broker closed a connection that stayed silent for 1.5 s; then nothing is expected of the
+            -- outcome beyond the other clauses (a slow machine must not look like wrong credentials)
+            let idle := (commaList envs).contains "IDLE"
+            let expect := if idle then "any" else expect
             match (commaList journal).mapM parseSeen with
             | some seen =>
               let failed := es.any isFailure
@@ -120,7 +125,9 @@ def step (line : String) : String :=
               (result != "ok" || (!failed && closed == "0")) &&
               (result == "ok" || result.startsWith "err") &&
               -- right credentials and no failure placed anywhere ⇒ the exchange completes
-              (expect != "ok" || result == "ok")
+              (expect != "ok" || result == "ok") &&
+              -- a broker that forged the SCRAM server signature ⇒ the dial fails (mutual authentication)
+              (expect != "err" || result.startsWith "err")
             | none => false
           | _ => false
         answer model holds
